@@ -4,7 +4,7 @@ import sanit
 
 def run(drv, seed):
     extra, viol, inc = {}, [], []
-    for fn in (lambda: sanit.cachegrind_scaling(drv), lambda: sanit.miri(drv, "C19", seed, nproc=8, per=30, many_seeds=0)):
+    for fn in (lambda: sanit.cachegrind_scaling(drv, n_small=4000, factor=4, deep=True), lambda: sanit.miri(drv, "C19", seed, nproc=8, per=30, many_seeds=0)):
         e, v, i = fn()
         extra.update(e)
         viol += [(b, dict(x, sig=x["sig"].replace("C19.", "C01."), rule=x["rule"].replace("C19.", "C01."))) for b, x in v]
